@@ -6,10 +6,12 @@ PROP = "C10"
 AREAS = ["kmer", "segment"]
 THEOREMS = ["with_size_is_gen", "old_is_gen", "nonempty_output", "tiling", "starts_ends", "overlap_k",
             "later_len_ge_k", "boundary_kmers", "ends_missing", "no_splitter_single", "occurrence_splits",
+            "old_splits_every_occurrence",
             "short_single", "segments_nonempty", "canonical_ne_missing"]
 RULE = ("cases: split <w|o> k contig splitters min_size (w = split_at_splitters_with_size, o = split_at_splitters; "
-        "splitters = hex u64 list). exhaustive: all contigs over {0,1,4} up to length 7 (quick) / 9 (thorough) for "
-        "k<=3 with all (k<=2) / all <=2-element + full (k=3) splitter sets drawn from the k-mers over {0,1}; random: "
+        "splitters = hex u64 list). exhaustive: all contigs over {0,1,4} up to length 7 (quick) / 9 for w and 8 for o (thorough), "
+        "k<=3, with all (k<=2) / all <=2-element + full (k=3) splitter sets drawn from the k-mers over {0,1}; random "
+        "(5000 quick / 300000 thorough): "
         "k in 1..32, codes 0..15 and 255, sets = empty / dense (every k-mer of the contig) / random subset / k-mers of "
         "the last k+2 bases / homopolymer and short-period contigs (adjacent and overlapping occurrences) / absent "
         "values incl. u64::MAX / contig shorter than k. non-trivial = at least 2 segments returned; distinct = distinct "
@@ -36,7 +38,7 @@ def pack(w, k):
     return (v << (64 - 2 * k)) & M64
 
 
-def canon(w, k):
+def kcanon(w, k):
     d, r = pack(w, k), pack([3 - b for b in reversed(w)], k)
     return min(d, r), d <= r
 
@@ -48,7 +50,7 @@ def kmers_of(c, k):
     for i, b in enumerate(c):
         run = run + 1 if b < 4 else 0
         if run >= k:
-            out.append((i + 1, canon(c[i + 1 - k:i + 1], k)[0]))
+            out.append((i + 1, kcanon(c[i + 1 - k:i + 1], k)[0]))
     return out
 
 
@@ -59,7 +61,7 @@ def case(v, k, c, spl, msz=0):
 def gen_exhaustive(maxlen, variants):
     cs = []
     for k in (1, 2, 3):
-        vals = sorted({canon(list(w), k)[0] for w in itertools.product((0, 1), repeat=k)})
+        vals = sorted({kcanon(list(w), k)[0] for w in itertools.product((0, 1), repeat=k)})
         if k <= 2:
             sets = [list(s) for r in range(len(vals) + 1) for s in itertools.combinations(vals, r)]
         else:
@@ -128,7 +130,7 @@ def rand_case(rng):
 def gen_cases(rng, tier):
     cs = []
     # hand-made corners: trailing k-mer-only segment, overlapping occurrences, N next to a splitter, short contig
-    aaa = canon([0, 0, 0], 3)[0]
+    aaa = kcanon([0, 0, 0], 3)[0]
     for v in ("w", "o"):
         cs += [case(v, 3, [0] * 6, [aaa]), case(v, 3, [0] * 3, [aaa]), case(v, 3, [0] * 2, [aaa]),
                case(v, 3, [], [aaa]), case(v, 3, [0, 0, 0, 4, 0, 0, 0], [aaa]), case(v, 3, [4, 4, 4], [aaa]),
@@ -141,7 +143,7 @@ def gen_cases(rng, tier):
     else:
         cs += gen_exhaustive(9, ("w",))
         cs += gen_exhaustive(8, ("o",))
-        nrand = 1000000
+        nrand = 300000
     for _ in range(nrand):
         cs.append(rand_case(rng))
     return cs
@@ -194,7 +196,7 @@ def oracle(case_, impl):
         w = a[0][-k:]
         if any(x > 3 for x in w):
             return "boundary window contains a non-ACGT code"
-        v, d = canon(w, k)
+        v, d = kcanon(w, k)
         if a[2] != v or b[1] != v:
             return "boundary k-mer is not recorded as back k-mer of one segment and front k-mer of the next"
         if v not in spl:
